@@ -18,6 +18,10 @@ var lifeOps = []string{"Bind:fifo", "Bind:prio", "Pause", "PauseAndWait", "Resum
 
 type lifeCfg struct {
 	ctx, expiry, pending bool
+	// busy: concurrency 2, gated jobs. A job is kept in flight whenever the worker is running (the gates are opened
+	// before a call that waits for in-flight work), and a job is submitted whenever the worker is paused: a worker
+	// that reports Running must use its free slot for a pending job (C14: never Running while unable to process).
+	busy bool
 }
 
 func (c lifeCfg) String() string {
@@ -25,7 +29,7 @@ func (c lifeCfg) String() string {
 	for _, p := range []struct {
 		b bool
 		n string
-	}{{c.ctx, "ctx"}, {c.expiry, "expiry"}, {c.pending, "pending"}} {
+	}{{c.ctx, "ctx"}, {c.expiry, "expiry"}, {c.pending, "pending"}, {c.busy, "busy"}} {
 		if p.b {
 			s += "+" + p.n
 		}
@@ -51,13 +55,36 @@ func runLife(cfg lifeCfg, seq []string, states map[string]struct{}) (clause, det
 		if cfg.expiry {
 			opts = append(opts, varmq.WithIdleWorkerExpiryDuration(time.Second))
 		}
-		w := h.NewWorker(Plain, 1, opts...)
-		ref, limit := "Initiated", 1
+		conc := 1
+		if cfg.busy {
+			conc = 2
+			h.Shape = Gated
+		}
+		w := h.NewWorker(Plain, conc, opts...)
+		ref, limit := "Initiated", conc
 		var q *Q
 		tag := 0
+		inflight := func() int {
+			n := 0
+			for _, jr := range h.Jobs {
+				if len(jr.Starts) > len(jr.Ends) {
+					n++
+				}
+			}
+			return n
+		}
 		for i, op := range seq {
 			var err error
 			want := "nil"
+			if cfg.busy {
+				switch op {
+				case "PauseAndWait", "Stop", "WaitAndStop", "Restart", "WUF":
+					// these wait for in-flight work: let it finish
+					for t := 0; t < tag; t++ {
+						h.Open(t)
+					}
+				}
+			}
 			switch {
 			case strings.HasPrefix(op, "Bind"):
 				k := Fifo
@@ -137,9 +164,35 @@ func runLife(cfg lifeCfg, seq []string, states map[string]struct{}) (clause, det
 					return
 				}
 			}
+			if cfg.busy && q != nil {
+				if ref == "Running" {
+					waiting := 0
+					for _, jr := range h.Jobs {
+						if jr.Accepted && len(jr.Starts) == 0 {
+							waiting++
+						}
+					}
+					if waiting > 0 && inflight() < limit {
+						clause, detail = "C14.running-stuck", fmt.Sprintf("the worker reports Running at rest after %s with a free slot and a pending job that it does not dispatch", lastOps(seq[:i+1]))
+						return
+					}
+					if inflight() == 0 && tag < 12 {
+						q.Add(tag, AddOpt{})
+						tag++
+						vrt.Quiesce()
+					}
+				} else if ref == "Paused" && tag < 12 {
+					q.Add(tag, AddOpt{})
+					tag++
+					vrt.Quiesce() // the dispatcher consumes the submission's wake-up while the worker is paused
+				}
+			}
 		}
 		// probe: a job submitted now runs iff the reference state is Running
 		if q != nil {
+			for t := 0; t < 100; t++ {
+				h.Open(t)
+			}
 			p := q.Add(99, AddOpt{})
 			vrt.Quiesce()
 			ran := len(p.Starts) > 0
@@ -465,7 +518,7 @@ func enumStrategy(r *SeqReport, kmax, pmax int, kindSet []QK) {
 }
 
 func init() {
-	cfgs := []lifeCfg{{}, {pending: true}, {ctx: true, pending: true}, {ctx: true, expiry: true}}
+	cfgs := []lifeCfg{{}, {pending: true}, {ctx: true, pending: true}, {ctx: true, expiry: true}, {busy: true}}
 	for _, cfg := range cfgs {
 		cfg := cfg
 		Register(&Scenario{
